@@ -328,6 +328,11 @@ func (*ExprBridge).CreateEnhancedExprEnvironment$2
 
 immutable ExprBridge: exprEnv
 
+// the bridge is built with its environment map and never gets another one
+func NewExprBridge
+  props C20 C06 C13
+  ensures a-new-bridge-with-an-environment-of-its-own: fresh(result) && result.exprEnv != nil && fresh(result.exprEnv)
+
 pure github.com/expr-lang/expr.Function
 
 // the registry's listing reads the registry and writes nothing
